@@ -431,3 +431,30 @@ Definition parse_into_file (files : list (string * string)) (s : string) (dest :
 Definition parse_json (jdec : list (nat * (val * nat))) (s : string) (dest : vmap) : pres :=
   parse_with (mkCfg MJson [] jdec) s dest.
 Definition parse_literal_into (s : string) (dest : vmap) : pres := parse_with (mkCfg MLiteral [] []) s dest.
+
+(* ---------- vocabulary of the frame statements (StrvalsProofs.parse_frame) ---------- *)
+(* the top-level key a name=value pair starts with, as runesUntil reads it *)
+Definition first_key (c : pcfg) (s : string) : string :=
+  match pmode_of c with
+  | MLiteral => fst (fst (runes_until false stop_key_lit s))
+  | _ => fst (fst (runes_until true stop_key s))
+  end.
+
+Definition kres_table (r : kres) (d0 : vmap) : vmap :=
+  match r with KOk d _ | KEof d | KErr d => d | KFuel => d0 end.
+
+Definition pres_table (r : pres) (d0 : vmap) : vmap :=
+  match r with POk d | PErr d => d | PFuel => d0 end.
+
+(* the keys the successive pairs start with, as far as the parser gets *)
+Fixpoint heads (f : nat) (c : pcfg) (d : vmap) (s : string) : list string :=
+  match f with
+  | O => []
+  | S f' =>
+      first_key c s ::
+      match key (S (String.length s)) c d 0 s with
+      | KOk d' rest => heads f' c d' rest
+      | _ => []
+      end
+  end.
+
